@@ -125,8 +125,15 @@ impl PushIteratorToArray {
             .iterators
             .pop()
             .js_expect("iterator stack should have at least an iterator")?;
+        let o = array.as_object().js_expect("should always be an object")?;
         while let Some(next) = iterator.step_value(context)? {
-            Array::push(&array, &[next], context)?;
+            // NOTE: A spread element is added with `CreateDataPropertyOrThrow`, which, unlike
+            // `Array.prototype.push`, never runs a setter found on the prototype chain.
+            let len = o
+                .length_of_array_like(context)
+                .js_expect("arrays should always have a 'length' property")?;
+            o.create_data_property_or_throw(len, next, context)
+                .js_expect("should be able to create new data property")?;
         }
         Ok(())
     }
